@@ -1,10 +1,11 @@
 /-
 C13 — model of delta indexing of a Git repository:
 
-* `gitindex/tree.go` `RepoWalker.handleEntry` folded over a tree walk (`collect`, the full build; ignore files
-  and submodules are C14's subject and are left out here),
+* `gitindex/tree.go` `RepoWalker.handleEntry` folded over a tree walk (`collect`, the full build, with the
+  tree's ignore matcher as an uninterpreted function of the tree — its meaning is C14's subject),
 * `gitindex/index.go` `prepareDeltaBuild` (`prepareDelta`, `applyChange`, `addAllBranches`), including its
-  fall-backs to a normal build (no shards, shard-number threshold, branch names differ),
+  fall-backs to a normal build (no shards, shard-number threshold, branch names differ, an ignore file present
+  or touched, a file swapped with a submodule link),
 * `index/builder.go` `Builder.Finish` for `IsDelta` (`deltaBuild`: changed paths are added to the tombstones of
   every older shard, the recorded branch versions are replaced, a new shard is stacked unless it would be empty),
 * `index/eval.go` `indexData.Search`'s `FileTombstones` skip and the branch filter (`Shard.cnt`, `Shard.view`).
@@ -72,13 +73,19 @@ def addBranch : Files → Path → Blob → Branch → Files
     if d.path = p ∧ d.blob = x then ⟨d.path, d.blob, d.branches ++ [b]⟩ :: r
     else d :: addBranch r p x b
 
+/-- the ignore file: its path, and which paths the ignore file of a tree excludes (`newIgnoreMatcher(tree)` then
+    `Matcher.Match`; a tree without a file at `path` excludes nothing — hypothesis `Ignore.WF` of the theorems) -/
+structure Ignore where
+  path : Path
+  ig : Tree → Path → Bool
+
 /-- `CollectFiles` for one branch: `handleEntry` over every file entry of the tree -/
-def collectTree (m : Files) (b : Branch) (t : Tree) : Files :=
-  t.foldl (fun m e => if e.2.isFile then addBranch m e.1 e.2.blob b else m) m
+def collectTree (I : Ignore) (m : Files) (b : Branch) (t : Tree) : Files :=
+  t.foldl (fun m e => if e.2.isFile && !I.ig t e.1 then addBranch m e.1 e.2.blob b else m) m
 
 /-- `prepareNormalBuild`: all branches, in order, into one map -/
-def collect (r : Repo) (brs : List Branch) : Files :=
-  brs.foldl (fun m b => collectTree m b (head r b)) []
+def collect (I : Ignore) (r : Repo) (brs : List Branch) : Files :=
+  brs.foldl (fun m b => collectTree I m b (head r b)) []
 
 /-- one element of go-git's tree diff without rename detection: `c.From` / `c.To` as files -/
 structure Change where
@@ -132,8 +139,8 @@ structure Index where
 def Index.empty : Index := ⟨[], [], []⟩
 
 /-- a normal build replaces every shard -/
-def fullBuild (r : Repo) (brs : List Branch) : Index :=
-  ⟨[⟨collect r brs, []⟩], brs, r⟩
+def fullBuild (I : Ignore) (r : Repo) (brs : List Branch) : Index :=
+  ⟨[⟨collect I r brs, []⟩], brs, r⟩
 
 /-- `Builder.Finish` with `IsDelta`: tombstones into every older shard, versions updated, new shard stacked
     (`flush` writes no shard when there is nothing to add and a shard already exists) -/
@@ -152,15 +159,23 @@ def Change.mixed (c : Change) : Bool :=
 def mixedChange (diff : Tree → Tree → List Change) (snap r : Repo) (brs : List Branch) : Bool :=
   brs.any fun b => (diff (head snap b) (head r b)).any Change.mixed
 
+/-- ignore files are not supported in delta builds: a current tree with an ignore file (after the fix), or a
+    change whose old or new file is the ignore file, makes `prepareDeltaBuild` fail -/
+def ignoreBlocksDelta (I : Ignore) (diff : Tree → Tree → List Change) (snap r : Repo) (brs : List Branch) : Bool :=
+  brs.any (fun b => (fget (head r b) I.path).isSome) ||
+  brs.any (fun b => (diff (head snap b) (head r b)).any fun c =>
+    c.path == I.path && ((fileSide c.old).isSome || (fileSide c.new).isSome))
+
 /-- does a requested delta build go ahead?  (`prepareDeltaBuild`'s fall-backs that involve only the index state) -/
 def deltaOk (idx : Index) (thr : Nat) (brs : List Branch) : Bool :=
   !idx.shards.isEmpty && !(thr > 0 && idx.shards.length > thr) && idx.brs == brs
 
 /-- one `IndexGitRepo` run -/
-def indexRun (diff : Tree → Tree → List Change) (idx : Index) (r : Repo) (delta : Bool) (thr : Nat)
+def indexRun (I : Ignore) (diff : Tree → Tree → List Change) (idx : Index) (r : Repo) (delta : Bool) (thr : Nat)
     (brs : List Branch) : Index :=
-  if delta && deltaOk idx thr brs && !mixedChange diff idx.snap r idx.brs then deltaBuild diff idx r
-  else fullBuild r brs
+  if delta && deltaOk idx thr brs && !mixedChange diff idx.snap r idx.brs &&
+      !ignoreBlocksDelta I diff idx.snap r idx.brs then deltaBuild diff idx r
+  else fullBuild I r brs
 
 /-- number of documents of `m` with path `p`, content `x`, on branch `b` -/
 def cntFiles (m : Files) (b : Branch) (p : Path) (x : Blob) : Nat :=
@@ -186,11 +201,11 @@ inductive Ev where
   | index (delta : Bool) (thr : Nat) (brs : List Branch)
   deriving Repr
 
-def step (diff : Tree → Tree → List Change) : Repo × Index → Ev → Repo × Index
+def step (I : Ignore) (diff : Tree → Tree → List Change) : Repo × Index → Ev → Repo × Index
   | (r, idx), .commit b t => ((b, t) :: r, idx)
-  | (r, idx), .index d thr brs => (r, indexRun diff idx r d thr brs)
+  | (r, idx), .index d thr brs => (r, indexRun I diff idx r d thr brs)
 
-def runHistory (diff : Tree → Tree → List Change) (evs : List Ev) : Repo × Index :=
-  evs.foldl (step diff) ([], Index.empty)
+def runHistory (I : Ignore) (diff : Tree → Tree → List Change) (evs : List Ev) : Repo × Index :=
+  evs.foldl (step I diff) ([], Index.empty)
 
 end ZoektModel.C13
